@@ -13,14 +13,15 @@
 void h_sjp_parse(void) {
     secp256k1_context ctx;
     INPUT(secp256k1_surjectionproof, proof);
-    INPUT(size_t, inputlen); INPUT(size_t, k); INPUT(_Bool, use_proof); INPUT(_Bool, use_input);
+    INPUT(size_t, inputlen); INPUT(size_t, k); INPUT(_Bool, use_proof); INPUT(_Bool, use_input); INPUT(_Bool, wdata);
     unsigned char *input; int ret;
     /* specification variables */
-    int s_ok = 0; size_t s_n = 0, s_nb = 0, s_pop = 0, i;
+    size_t s_n = 0, s_nb = 0, s_pop = 0;
     __CPROVER_assume(inputlen <= MAXLEN);
     INPUT_BUF(inw, input, inputlen, 32);
     verif_ctx_init(&ctx);
-    g_mc_idx = k; g_cb_n = 0; g_cb_k = k;
+    g_cb_n = 0; g_cb_ret = 0; g_cb_count = 0; g_cb_k = k;
+    g_mc_watch = wdata ? &proof.data[k < sizeof(proof.data) ? k : 0] : &proof.used_inputs[k < 32 ? k : 0];
     /* one call site per NULL pattern: keeps every pointer a constant for the verifier (a conditional
      * pointer as memcpy destination costs 7x) */
     if (use_proof && use_input) ret = secp256k1_surjectionproof_parse(&ctx, &proof, input, inputlen);
@@ -34,37 +35,40 @@ void h_sjp_parse(void) {
         __CPROVER_assert(g_illegal == 0, "C11 parse: no illegal callback for non-NULL arguments, whatever the bytes");
         /* specification from include/secp256k1_surjectionproof.h (encoding) and the property text
          * (at most 256 inputs, no set padding bits, exact length) */
-        if (inputlen >= 2) {
-            s_n = (size_t)input[0] + 256 * (size_t)input[1];
-            s_nb = (s_n + 7) / 8;
-            if (s_n <= 256 && inputlen >= 2 + s_nb) {
-                int pad_ok = 1;
-                /* bits at positions >= n in the last bitmap byte must be zero */
-                if (s_n % 8 != 0 && (input[2 + s_nb - 1] >> (s_n % 8)) != 0) pad_ok = 0;
-                /* m = number of set bits of the ceil(n/8)-byte bitmap: the value of count_bits_set(bitmap, ceil(n/8)),
-                 * which unit C11.count_bits proves to be the population count */
-                if (pad_ok) {
-                    __CPROVER_assert(g_cb_n >= 1 && g_cb_count == s_nb && (k >= s_nb || g_cb_byte == input[2 + k]), "C11 parse: the bit count is taken over exactly the ceil(n/8) bitmap bytes of this input");
-                    s_pop = g_cb_ret;
-                }
-                s_ok = pad_ok && inputlen == 2 + s_nb + 32 * (1 + s_pop);
+        {   int gates = 0, counted;
+            if (inputlen >= 2) {
+                s_n = (size_t)input[0] + 256 * (size_t)input[1];
+                s_nb = (s_n + 7) / 8;
+                /* gates that need no bit count: at most 256 inputs, bitmap present, no bit at a position >= n */
+                gates = s_n <= 256 && inputlen >= 2 + s_nb && !(s_n % 8 != 0 && (input[2 + s_nb - 1] >> (s_n % 8)) != 0);
             }
+            if (!gates) __CPROVER_assert(ret == 0, "C11 parse: fewer than 2 bytes, more than 256 inputs, truncated bitmap or a set padding bit rejected");
+            /* m = number of set bits of the ceil(n/8)-byte bitmap = what count_bits_set returns for THESE bytes
+             * (unit C11.count_bits: the population count); "counted" = the helper was consulted on them */
+            counted = gates && g_cb_n >= 1 && g_cb_count == s_nb && (k >= s_nb || g_cb_byte == input[2 + k]);
+            if (ret == 1) {
+                __CPROVER_assert(counted, "C11 parse: acceptance is based on the bit count of exactly the ceil(n/8) bitmap bytes of this input");
+                s_pop = g_cb_ret;
+                __CPROVER_assert(inputlen == 2 + s_nb + 32 * (1 + s_pop), "C11 parse: accepted length is exactly 2 + ceil(n/8) + 32 (1 + m)");
+            }
+            /* accept side: a canonical encoding is accepted; without the bit count only lengths that fit no m may be rejected */
+            if (counted && inputlen == 2 + s_nb + 32 * (1 + g_cb_ret)) __CPROVER_assert(ret == 1, "C11 parse: every canonical encoding is accepted");
+            if (gates && ret == 0 && g_cb_n == 0) __CPROVER_assert(inputlen < 2 + s_nb + 32 || (inputlen - 2 - s_nb) % 32 != 0 || inputlen > 2 + s_nb + 32 * (1 + 8 * s_nb), "C11 parse: a rejection that does not consult the bit count concerns a length that fits no bit count");
         }
-        __CPROVER_assert(ret == s_ok, "C11 parse: accept set equals the canonical-encoding specification");
         if (ret) {
             __CPROVER_assert(secp256k1_surjectionproof_n_total_inputs(&ctx, &proof) == s_n && proof.n_inputs <= SECP256K1_SURJECTIONPROOF_MAX_N_INPUTS, "C11 parse: accepted object reports n_inputs = b0 + 256 b1 and is a valid proof object (n_inputs <= 256)");
-#ifdef EL_CONTENT   /* thorough tier: byte-for-byte content of the 8 KiB fields (ghost index k) */
-            if (k < s_nb) __CPROVER_assert(proof.used_inputs[k] == input[2 + k], "C11 parse: every bitmap byte copied");
-            if (k < 32 * (1 + s_pop)) __CPROVER_assert(proof.data[k] == input[2 + s_nb + k], "C11 parse: every signature byte copied");
+#ifdef EL_CONTENT   /* thorough tier, REPRESENTATION LINK used by the verify/generate units (which read e0 and the scalars from the object):
+                     * bitmap byte k is stored at used_inputs[k], signature byte k at data[k] (destination-relative watch) */
+            if (!wdata && k < s_nb) __CPROVER_assert(proof.used_inputs[k] == input[2 + k], "C11 parse: (representation link) bitmap byte k is stored at used_inputs[k]");
+            if (wdata && k < 32 * (1 + s_pop)) __CPROVER_assert(proof.data[k] == input[2 + s_nb + k], "C11 parse: (representation link) signature byte k is stored at data[k]");
 #endif
-            if (s_n % 8 != 0) __CPROVER_assert((input[2 + s_nb - 1] >> (s_n % 8)) == 0, "C11 parse: accepted encoding has no padding bit set");
             __CPROVER_assert(32 * (1 + s_pop) <= sizeof(proof.data) && s_nb <= sizeof(proof.used_inputs), "C11 parse: accepted sizes fit the proof object");
         }
         if (ret && s_n == 256 && s_pop == 256) REACH("parse accepts 256 inputs all used");
         if (ret && s_n == 0) REACH("parse accepts the empty proof");
         if (!ret && inputlen >= 2 && s_n <= 256 && s_n % 8 == 3 && inputlen >= 2 + s_nb + 32) REACH("parse rejects on padding or length");
     } else {
-        __CPROVER_assert(ret == 0 && g_illegal == 1, "C11 parse: NULL argument reports illegal use and returns 0");
+        __CPROVER_assert(ret == 0 && g_illegal >= 1, "C11 parse: NULL argument reports illegal use and returns 0");
         REACH("parse NULL argument");
     }
 }
